@@ -7,6 +7,7 @@ BARE_READ = r"(^|::)(std::io::Read::read|std::io::Read::read_vectored|std::io::R
             r"tokio::io::AsyncReadExt::read|tokio::io::AsyncReadExt::read_buf|tokio::io::AsyncBufReadExt::fill_buf|" \
             r"std::io::Read::read_to_end|std::io::Read::read_to_string|tokio::io::AsyncReadExt::read_to_end|" \
             r"tokio::io::AsyncReadExt::read_to_string|std::net::TcpStream::peek)$"
+TEXT_READ = r"(std::io::BufRead::read_line|std::io::BufRead::lines|tokio::io::AsyncBufReadExt::read_line|tokio::io::AsyncBufReadExt::lines)$"
 GOOD_READ = r"(std::io::Read::read_exact|std::io::BufRead::read_until|tokio::io::AsyncReadExt::read_exact|" \
             r"tokio::io::AsyncBufReadExt::read_until)$"
 
@@ -114,6 +115,15 @@ def reads(chk, prog, cfg):
             if core.call_matches(t, BARE_READ):
                 chk.ob("R4.reads", fn, f"bare read {t['callee']}", False,
                        f"{t['callee']} may return after any prefix of the bytes: the parse would depend on TCP segmentation", where=b.where(blk), cfg=cfg)
+            elif core.call_matches(t, TEXT_READ):
+                # a read that validates UTF-8 reports malformed bytes as io::ErrorKind::InvalidData: unless the kind is looked at, the parser
+                # cannot tell a malformed request (answered 400) from a failed connection (closed silently)
+                kinds = b.calls_to(r"std::io::Error::kind$")
+                chk.ob("R4.reads", fn, f"text read {t['callee'].split('::')[-1]}: malformed bytes are told apart from I/O failure", bool(kinds),
+                       f"{t['callee']} fails with an I/O error on bytes that are not UTF-8; the request parser maps read errors to RequestError::Stream, so such a "
+                       "malformed request is dropped silently instead of being answered 400 (read bytes and validate them: from_utf8 -> RequestError::Request)",
+                       where=b.where(blk), cfg=cfg)
+                total_good += 1
             elif core.call_matches(t, GOOD_READ):
                 total_good += 1
                 chk.ob("R4.reads", fn, f"{t['callee'].split('::')[-1]}@{describe_short(prog, b, t)}", True, where=b.where(blk), cfg=cfg)
